@@ -21,6 +21,7 @@ def draw_platform(rng):
         "encoding": rng.choice(ENCODINGS),
         "bufsize": rng.choice(BUFSIZES),
         "max_xfer": rng.choice([1, 2, 3, 5, 7, 13, 64, 256, 4096]),
+        "mtime_granularity": rng.choice([1e-7, 1e-7, 1.0, 2.0]),  # ns-resolution file systems ... FAT's two seconds
     }
 
 
@@ -31,6 +32,7 @@ def draw_config(rng):
         "stdout": {"kind": rng.choice(STDOUT_KINDS)},
         "logger": {"kind": rng.choice(["default", "default", "error_level", "raising_handler", "debug_level"])},
         "warnings": {"kind": rng.choice(["always"] * 8 + ["error", "error", "error_sparse"])},
+        "numpy_err": {"kind": rng.choice(["default"] * 6 + ["ignore", "ignore", "warn"])},
         "numpy_print": {"kind": rng.choice(["default"] * 8 + ["precision3", "formatter", "threshold", "legacy113", "legacy113"])},
     }
 
@@ -236,7 +238,7 @@ class OptEngineBase:
         # config to defaults
         from .world import DEFAULT_CONFIG
 
-        for key in ("clock", "stdout", "logger", "platform", "warnings", "numpy_print"):
+        for key in ("clock", "stdout", "logger", "platform", "warnings", "numpy_print", "numpy_err"):
             if case.get("config", {}).get(key) and case["config"][key] != DEFAULT_CONFIG[key]:
                 c = copy.deepcopy(case)
                 c["config"][key] = copy.deepcopy(DEFAULT_CONFIG[key])
